@@ -261,7 +261,7 @@ def parse_generic_csv(filepath, format_spec, rules, source_name='CSV',
             # Parse date - handle optional day suffix (e.g., "01/02/2017  Mon")
             # Only strip trailing text if the date format doesn't contain spaces
             # (formats like "%d %b %y" for "30 Dec 25" need the spaces preserved)
-            if ' ' not in format_spec.date_format:
+            if not any(c.isspace() for c in format_spec.date_format):
                 date_str = date_str.split()[0]  # Take just the date part
             date = datetime.strptime(date_str, format_spec.date_format)
 
